@@ -3,6 +3,7 @@ package main
 import (
 	"fmt"
 	"path/filepath"
+	"strings"
 	"verif/engine/sym"
 )
 
@@ -45,6 +46,10 @@ func checkC03() *CheckDef {
 			out = append(out, &sym.HarnessConfig{Name: "h03b", Pkg: binPkg, Params: map[string]int{"depth": b.depth, "budget": b.budget, "k": b.k, "bin": b.bin, "muts": b.muts},
 				Budget: 1000000, BigLim: 40, BudgetIsViolation: true})
 			for n := 0; n <= b.nC; n++ {
+				out = append(out, &sym.HarnessConfig{Name: "h03a", Pkg: binPkg, Params: map[string]int{"n": n, "eofdata": 1}, Budget: 600000, BigLim: b.nA + 2, BudgetIsViolation: true})
+			}
+			out = append(out, &sym.HarnessConfig{Name: "h03d", Pkg: binPkg, Params: map[string]int{}, Budget: 20000000, BigLim: 16, BudgetIsViolation: true})
+			for n := 0; n <= b.nC; n++ {
 				out = append(out, &sym.HarnessConfig{Name: "h03c", Pkg: binPkg, Params: map[string]int{"n": n}, Budget: 600000, BigLim: b.nC + 2, BudgetIsViolation: true})
 			}
 			out = append(out, &sym.HarnessConfig{Name: "h03a_witness", Pkg: binPkg, Params: map[string]int{"n": 3}, Budget: 600000, BigLim: 8, ExpectViolation: true})
@@ -57,6 +62,8 @@ func checkC03() *CheckDef {
 				"familyB_value_shape":     map[string]int{"depth": b.depth, "nodes": b.budget, "container_len": b.k, "binary_len": b.bin},
 				"familyB_mutations":       fmt.Sprintf("truncation at every offset, or %d arbitrary byte substitution(s) at every position", b.muts),
 				"chunking_input_bytes_max": b.nC, "chunking": "every segmentation into reads of >=1 byte plus one zero-length read",
+				"deep_nesting": "h03d: chains of structs / lists / alternating, 63..130 levels, symbolic leaf",
+				"eof_with_data": "family A is repeated (n <= chunking bound) with a stream source that returns io.EOF together with the last bytes",
 				"outside": "longer inputs; >1MiB binaries on the success side; I/O errors other than EOF",
 			}
 		},
@@ -77,6 +84,8 @@ func checkC02() *CheckDef {
 		Harnesses: func(tier string) []*sym.HarnessConfig {
 			return []*sym.HarnessConfig{
 				{Name: "h02", Pkg: binPkg, Params: params(tier), Budget: 2000000},
+				{Name: "h02", Pkg: binPkg, Params: map[string]int{"depth": 2, "budget": 3, "k": 1, "bin": 1, "warm": 70}, Budget: 4000000},
+				{Name: "h02len", Pkg: binPkg, Params: map[string]int{}, Budget: 20000000},
 				{Name: "h02c", Pkg: binPkg, Params: map[string]int{"depth": 2, "budget": 2, "k": 1, "bin": 2}, Budget: 2000000},
 				{Name: "h02big", Pkg: binPkg, Params: map[string]int{}, Budget: 400000000, BigLim: 16},
 				{Name: "h02_witness", Pkg: binPkg, Params: map[string]int{"depth": 1, "budget": 2, "k": 1, "bin": 1}, ExpectViolation: true},
@@ -87,7 +96,9 @@ func checkC02() *CheckDef {
 			return map[string]interface{}{"nesting_depth_max": p["depth"], "total_nodes_max": p["budget"], "container_len_max": p["k"], "binary_len_max": p["bin"],
 				"leaves": "all values of every scalar (symbolic), all field ids (symbolic, pairwise distinct)",
 				"segmentation": "h02c: every segmentation of the stream into reads for shapes of <= 2 nodes",
-				"large_binaries": "h02big: binaries of 1 MiB+1 and 1.5 MiB+1 bytes (pattern content, 3 symbolic bytes) through both decoders"}
+				"large_binaries": "h02big: binaries of 1 MiB+1 and 1.5 MiB+1 bytes (pattern content, 3 symbolic bytes) through both decoders; h02len: binaries/strings of 250..260 bytes through both writers and the decoder",
+				"eof_with_data": "sources (io.Reader and io.ReaderAt) that return io.EOF together with the last bytes",
+				"dirty_pools":   "a configuration of small shapes runs after 70 failed decodes of a truncated nested container (pooled readers reused)"}
 		},
 		Assume: commonAssume,
 	}
@@ -110,7 +121,14 @@ func checkC12() *CheckDef {
 			for l := 1; l <= b.l; l++ {
 				out = append(out, &sym.HarnessConfig{Name: "h12a", Pkg: binPkg, Params: map[string]int{"l": l}, Budget: 1000000, BigLim: 24})
 			}
-			for rk := 0; rk <= 2; rk++ {
+			longNames := []int{55, 56}
+			if tier == "thorough" {
+				longNames = []int{50, 51, 52, 53, 54, 55, 56, 57, 58, 59, 60, 63, 64, 65, 127, 128, 129, 255, 256, 257}
+			}
+			for _, l := range longNames {
+				out = append(out, &sym.HarnessConfig{Name: "h12a", Pkg: binPkg, Params: map[string]int{"l": l}, Budget: 4000000, BigLim: 300})
+			}
+			for rk := 0; rk <= 3; rk++ {
 				for n := 0; n <= b.n; n++ {
 					out = append(out, &sym.HarnessConfig{Name: "h12b", Pkg: binPkg, Params: map[string]int{"n": n, "reader": rk, "free": b.free}, Budget: 1000000, BigLim: b.n + 2})
 				}
@@ -124,8 +142,8 @@ func checkC12() *CheckDef {
 		Bounds: func(tier string) map[string]interface{} {
 			b := bounds(tier)
 			return map[string]interface{}{
-				"roundtrip_name_len": fmt.Sprintf("1..%d (all byte values)", b.l), "type": "0..127 symbolic", "seqid": "all int32", "body": "struct with <=1 field, symbolic id and leaf",
-				"classification_input_bytes_max": b.n, "readers": fmt.Sprintf("seekable bytes.Reader; one-shot non-seekable; non-seekable whose first %d reads return every possible count (>=1 byte, plus one zero-length read) and later reads are maximal", b.free),
+				"roundtrip_name_len": fmt.Sprintf("1..%d (all byte values), plus 55 and 56 (thorough: 50..60, 63..65, 127..129, 255..257)", b.l), "type": "0..127 symbolic", "seqid": "all int32", "body": "struct with <=1 field, symbolic id and leaf",
+				"classification_input_bytes_max": b.n, "readers": fmt.Sprintf("seekable bytes.Reader; one-shot non-seekable; one-shot returning io.EOF with the last bytes; non-seekable whose first %d reads return every possible count (>=1 byte, plus one zero-length read) and later reads are maximal", b.free),
 				"echo_name_len": fmt.Sprintf("1..%d", b.lc),
 				"outside":       "names longer than the bound (up to 2^16 in the property), legacy names >= 16 MB, negative message types, internal/envelope client/server and multiplex wrappers (see h12d when present)",
 			}
@@ -218,6 +236,10 @@ func checkC13base() *CheckDef {
 				out = append(out, &sym.HarnessConfig{Name: "h13f", Pkg: framePkg, Params: map[string]int{"n": n, "frame": 1},
 					Budget: 300000 + 30000*n, BigLim: b.n + 2, BudgetIsViolation: true, AllocLimit: allocLimit})
 			}
+			for api := 0; api <= 2; api++ {
+				out = append(out, &sym.HarnessConfig{Name: "h13c", Pkg: binPkg, Params: map[string]int{"api": api, "n": 48},
+					Budget: 3000000, BigLim: 64, BudgetIsViolation: true, AllocLimit: allocLimit})
+			}
 			out = append(out, &sym.HarnessConfig{Name: "h13_witness", Pkg: binPkg, Params: map[string]int{"n": 2, "api": 0}, ExpectViolation: true})
 			return out
 		},
@@ -229,6 +251,7 @@ func checkC13base() *CheckDef {
 				"length_field_templates":      map[string]int{"depth": b.depth, "nodes": b.budget, "container_len": b.k, "binary_len": b.bin},
 				"alloc_bound":                 "each request <= 1MiB+4KiB+128*N bytes, path total <= 2x that",
 				"work_bound":                  "calls into the underlying reader <= 64+32*N; interpreter steps <= 300000+30000*N",
+				"one_byte_reads":              "h13c: ReadBinary / ReadString / ReadEnvelopeBegin with an arbitrary declared length followed by 40 bytes arriving one per Read",
 				"frame_reader":                "frame.Reader.Read on arbitrary bytes; fixed constant 10MiB+4KiB (its documented fast-path size)",
 				"outside":                     "constant factors; GC; programs outside the corpus",
 			}
@@ -255,6 +278,13 @@ func checkC14() *CheckDef {
 				out = append(out, h)
 			}
 		}
+		// containers of two elements (permuted order matters for slice-backed sets)
+		for _, h := range genHarnesses(c, "gH14g", map[string]int{"depth": 2, "simple": 2, "sameshape": 1, "k": 2}, 40000000) {
+			name := c.Gen.Types[h.Params["type"]]
+			if strings.HasSuffix(name, ".OneSliceSet") || strings.HasSuffix(name, ".OneStructSet") {
+				out = append(out, h)
+			}
+		}
 		for _, h := range genHarnesses(c, "gH14t", map[string]int{"depth": 1, "simple": 1}, 20000000) {
 			out = append(out, h)
 		}
@@ -263,7 +293,7 @@ func checkC14() *CheckDef {
 	baseB := c.Bounds
 	c.Bounds = func(tier string) map[string]interface{} {
 		m := baseB(tier)
-		m["generated_equals"] = "every corpus type: x, y (and z) obtained by decoding reference encodings of valid values (quick: y has the shape of x with independent leaves; thorough: also independent shapes) (containers <= 1 element, nested values all-absent or all-present); Equals vs structural oracle vs wire.ValuesAreEqual; nil receivers/arguments"
+		m["generated_equals"] = "every corpus type: x, y (and z) obtained by decoding reference encodings of valid values (quick: y has the shape of x with independent leaves; thorough: also independent shapes) (containers <= 1 element, nested values all-absent or all-present; plus, for the types OneSliceSet and OneStructSet, a configuration with exactly 2 elements per container, all fields present); Equals vs structural oracle vs wire.ValuesAreEqual; nil receivers/arguments"
 		m["outside"] = "NaN and duplicates (excluded by the statement); larger containers; programs outside the corpus"
 		return genBounds(c, m)
 	}
@@ -286,6 +316,7 @@ func checkC14base() *CheckDef {
 			return []*sym.HarnessConfig{
 				{Name: "h14", Pkg: wirePkg, Params: map[string]int{"depth": p["depth"], "budget": p["budget"], "budget2": 0, "k": p["k"], "bin": p["bin"]}, Budget: 3000000, AllMapOrders: true},
 				{Name: "h14", Pkg: wirePkg, Params: map[string]int{"depth": p["depth"], "budget": p["budget2"], "budget2": p["budget2"], "k": p["k"], "bin": p["bin"]}, Budget: 3000000, AllMapOrders: true},
+				{Name: "h14s", Pkg: wirePkg, Params: map[string]int{}, Budget: 3000000, AllMapOrders: true},
 				{Name: "h14r", Pkg: wirePkg, Params: map[string]int{"depth": p["depth"], "budget": p["budget"] + 1, "k": p["k"], "bin": p["bin"]}, Budget: 3000000, AllMapOrders: true},
 				{Name: "h14t", Pkg: wirePkg, Params: map[string]int{"depth": p["depth"], "budget": p["budget"] - 1, "k": p["k"], "bin": p["bin"]}, Budget: 3000000, AllMapOrders: true},
 				{Name: "h14_witness", Pkg: wirePkg, Params: map[string]int{"depth": 1, "budget": 2, "budget2": 1, "k": 1, "bin": 1}, ExpectViolation: true},
@@ -294,7 +325,7 @@ func checkC14base() *CheckDef {
 		Bounds: func(tier string) map[string]interface{} {
 			p := params(tier)
 			return map[string]interface{}{"wire_values": p, "transitivity_triples": "same-shape triples with independent leaves, one node fewer than pairs", "second_value": "same shape with independent leaves (first value <= budget nodes), and independent shapes (both <= budget2 nodes)",
-				"map_iteration": "all orders", "preconditions": "no NaN; sets and map keys duplicate-free; struct ids distinct (as the property states)",
+				"unhashable_elements": "h14s: a struct of two scalar fields as set element / map key / inside list<set>, second value with independent leaves and fields possibly in the other order", "map_iteration": "all orders", "preconditions": "no NaN; sets and map keys duplicate-free; struct ids distinct (as the property states)",
 				"outside": "generated Equals methods (generated-code pipeline not built yet); larger containers"}
 		},
 		Assume: commonAssume,
@@ -380,6 +411,7 @@ func checkC11() *CheckDef {
 			for _, n := range []int{1, 2, 16} {
 				out = append(out, &sym.HarnessConfig{Name: "h11e", Pkg: idlIntPkg, Params: map[string]int{"n": n, "kind": 1}, Budget: 6000000})
 			}
+			out = append(out, &sym.HarnessConfig{Name: "h11s", Pkg: idlIntPkg, Params: map[string]int{}, Budget: 20000000})
 			out = append(out, &sym.HarnessConfig{Name: "h11w", Pkg: astPkg, Params: map[string]int{}, Budget: 6000000})
 			out = append(out, &sym.HarnessConfig{Name: "h11_witness", Pkg: idlIntPkg, Params: map[string]int{"n": 3, "dq": 1}, ExpectViolation: true})
 			return out
@@ -390,6 +422,7 @@ func checkC11() *CheckDef {
 				"literal_bytes_max": b.la, "literal_grammar": "quotes + ASCII body with escapes \\n \\r \\t \\\\ \\' \\\" only (other escapes are outside the claim)",
 				"docstring_bytes_max": b.lb, "literal_in_context_bytes_max": b.lc, "arbitrary_document_bytes_max": b.nd,
 				"integer_literals": "decimal: 1..3 symbolic digits, optional sign; hex: 1..2 symbolic digits, and 16 digits with a symbolic leading digit",
+				"field_lists": "h11s: struct / exception / parameter lists of 2 fields from a menu (id or none, required/optional/none, separator , ; none, docstring), symbolic field names, optionally after an earlier Parse that left a docstring unclaimed or failed: ids, requiredness, names, docstrings, lines",
 				"ast_walk":         "one program with a constant of each scalar kind (symbolic values), a list and a map: every node visited once with a parent",
 				"outside": "tree structure and positions of other constructs, layout/separator combinations, documents longer than the bound",
 			}
@@ -410,20 +443,21 @@ func checkC20() *CheckDef {
 			if tier == "thorough" {
 				return []*sym.HarnessConfig{
 					{Name: "h20", Pkg: comparePkg, Params: map[string]int{"ns": 2, "nv": 0}, Budget: 3000000, AllMapOrders: true, RealFmt: true},
-					{Name: "h20", Pkg: comparePkg, Params: map[string]int{"ns": 0, "nv": 2}, Budget: 3000000, AllMapOrders: true, RealFmt: true},
+					{Name: "h20", Pkg: comparePkg, Params: map[string]int{"ns": 0, "nv": 2, "parent": 1}, Budget: 3000000, AllMapOrders: true, RealFmt: true},
 					{Name: "h20", Pkg: comparePkg, Params: map[string]int{"ns": 1, "nv": 1}, Budget: 3000000, AllMapOrders: true, RealFmt: true},
 					{Name: "h20_witness", Pkg: comparePkg, Params: map[string]int{"ns": 1, "nv": 0}, AllMapOrders: false, RealFmt: true, ExpectViolation: true},
 				}
 			}
 			return []*sym.HarnessConfig{
 				{Name: "h20", Pkg: comparePkg, Params: map[string]int{"ns": 1, "nv": 0}, Budget: 3000000, AllMapOrders: true, RealFmt: true},
-				{Name: "h20", Pkg: comparePkg, Params: map[string]int{"ns": 0, "nv": 2}, Budget: 3000000, AllMapOrders: true, RealFmt: true},
+				{Name: "h20", Pkg: comparePkg, Params: map[string]int{"ns": 0, "nv": 2, "parent": 1}, Budget: 3000000, AllMapOrders: true, RealFmt: true},
 				{Name: "h20", Pkg: comparePkg, Params: map[string]int{"ns": 1, "nv": 1}, Budget: 3000000, AllMapOrders: true, RealFmt: true},
 				{Name: "h20_witness", Pkg: comparePkg, Params: map[string]int{"ns": 1, "nv": 0}, AllMapOrders: false, RealFmt: true, ExpectViolation: true},
 			}
 		},
 		Bounds: func(tier string) map[string]interface{} {
 			return map[string]interface{}{
+				"inheritance":   "in the services-only configuration the new version of a service may extend a service declaring the same method names",
 				"modules":       "<= 2 structs (2 and 1 fields) and <= 2 services (2 and 1 methods) in the old version; every subset of deletions, re-typings (3 types), requiredness flips, one added field per struct, added struct/service/method in the new version",
 				"field_ids":     "symbolic int16, distinct within a struct",
 				"map_iteration": "all orders",
@@ -444,6 +478,8 @@ var pkgGen17 = PkgDef{Path: genPkg, Dir: "gen", Name: "gen", Files: []string{"ge
 	{File: "generate.go", Old: "func mergeFiles(", New: "var _ os.FileMode\n\nfunc mergeFiles(", Count: 1},
 }}
 
+var pkgMain = PkgDef{Path: "go.uber.org/thriftrw", Dir: ".", Name: "main", Files: []string{"main/zz_h17m.go"}}
+
 var pkgIntPlugin = PkgDef{Path: intPluginPkg, Dir: "internal/plugin", Name: "plugin", Files: []string{"internal_plugin/zz_export.go", "internal_plugin/zz_h16a.go"}}
 
 func checkC17() *CheckDef {
@@ -459,7 +495,7 @@ func checkC17() *CheckDef {
 	}
 	return &CheckDef{
 		ID:   "C17",
-		Pkgs: []PkgDef{pkgGen17, pkgIntPlugin},
+		Pkgs: []PkgDef{pkgGen17, pkgIntPlugin, pkgMain},
 		Harnesses: func(tier string) []*sym.HarnessConfig {
 			b := bounds(tier)
 			var out []*sym.HarnessConfig
@@ -469,6 +505,7 @@ func checkC17() *CheckDef {
 			for _, l := range b.probe {
 				out = append(out, &sym.HarnessConfig{Name: "h17", Pkg: genPkg, Params: map[string]int{"l": l, "plugins": 1, "files": 1, "fixedlen": 1}, Budget: 5000000, AllMapOrders: true})
 			}
+			out = append(out, &sym.HarnessConfig{Name: "h17m", Pkg: "go.uber.org/thriftrw", Params: map[string]int{"l": 3}, Budget: 5000000})
 			out = append(out, &sym.HarnessConfig{Name: "h17_witness", Pkg: genPkg, Params: map[string]int{"l": 1, "plugins": 1, "files": 1, "fixedlen": 0}, ExpectViolation: true})
 			return out
 		},
@@ -476,9 +513,10 @@ func checkC17() *CheckDef {
 			b := bounds(tier)
 			return map[string]interface{}{
 				"plugins": b.plugins, "files_per_plugin": b.files, "plugin_path_len": fmt.Sprintf("1..%d arbitrary bytes (1..%d with two plugins); plus single paths of exactly %v arbitrary bytes (the core path foo/foo.go has 10)", b.l, b.l-1, b.probe),
-				"faults": "none / core generator / each plugin", "map_iteration": "all orders", "plugin_order": "all orders (concurrent.Range modelled sequentially in every order)",
+				"faults": "none / core generator / each plugin", "plugin_names": "distinct, or two instances of the same plugin",
+				"thrift_root": "h17m (package main): the inferred root for a file in /r/<d1> including a file in /r/<d2> or /r/<d1>/<d2>, directory names of 1..3 symbolic bytes, is an ancestor of both", "map_iteration": "all orders", "plugin_order": "all orders (concurrent.Range modelled sequentially in every order)",
 				"stubs": "generateModule (template expansion) replaced by a stub with the same path computation; os.MkdirAll/os.WriteFile replaced by recorders (textual redirection of the current gen/generate.go, used for symbolic run and native replay alike)",
-				"outside": "real file-system effects, failures inside the write loop, main.go ancestry checks, handshake failures (C16)",
+				"outside": "real file-system effects, failures inside the write loop, handshake failures (C16)",
 			}
 		},
 		Assume: commonAssume,
@@ -584,14 +622,16 @@ func checkC01() *CheckDef {
 	c.Harnesses = func(tier string) []*sym.HarnessConfig {
 		d := 2
 		out := genHarnesses(c, "gH01", map[string]int{"depth": d}, 20000000)
+		out = append(out, &sym.HarnessConfig{Name: "gHConst", Pkg: c.Gen.MainPkg, Params: map[string]int{"depth": 1}, Budget: 20000000, BigLim: 16})
 		out = append(out, &sym.HarnessConfig{Name: "gHBig", Pkg: c.Gen.MainPkg, Params: map[string]int{"depth": 1}, Budget: 600000000, BigLim: 16})
 		out = append(out, &sym.HarnessConfig{Name: "gHWitness", Pkg: c.Gen.MainPkg, Params: map[string]int{"type": 0, "depth": 1}, Budget: 20000000, ExpectViolation: true})
 		return out
 	}
 	c.Bounds = func(tier string) map[string]interface{} {
 		return genBounds(c, map[string]interface{}{"containers_max": 1, "strings_max": 1, "struct_nesting": 2,
+			"constants": "gHConst: every generated constant of a primitive or enum type equals its IDL literal (incl. a string with CR LF, quotes and a backslash)",
 			"large_values": "gHBig: a struct with a string and a binary of 1 MiB+1 bytes each (pattern content, 3 symbolic bytes each) through both deserializers",
-			"outside": "programs outside the corpus; generator option sets other than --no-zap --no-embed-idl; String(); constants and accessors"})
+			"outside": "programs outside the corpus; generator option sets other than --no-zap --no-embed-idl; String(); container/struct constants; Default_T() and GetX() accessors"})
 	}
 	return c
 }
@@ -625,6 +665,10 @@ func checkC04() *CheckDef {
 		out = append(out, genHarnesses(c, "gH04b", map[string]int{"depth": 2, "muts": b.muts, "simple": simple}, 20000000)...)
 		out = append(out, genHarnesses(c, "gH04v", map[string]int{"depth": 2}, 20000000)...)
 		out = append(out, genHarnesses(c, "gH04c", map[string]int{"depth": 2, "simple": 2, "free": 4}, 20000000)...)
+		// strings and binaries whose length sits at a buffer-size boundary
+		for _, l := range []int{252, 253, 256, 257} {
+			out = append(out, genHarnesses(c, "gH04v", map[string]int{"depth": 1, "simple": 2, "strlen": l}, 40000000)...)
+		}
 		out = append(out, &sym.HarnessConfig{Name: "gHWitness", Pkg: c.Gen.MainPkg, Params: map[string]int{"type": 0, "depth": 1}, Budget: 20000000, ExpectViolation: true})
 		return out
 	}
@@ -632,6 +676,7 @@ func checkC04() *CheckDef {
 		b := bounds(tier)
 		return genBounds(c, map[string]interface{}{"arbitrary_bytes_max": b.n, "mutations_of_reference_encodings": fmt.Sprintf("truncation at every offset or %d arbitrary byte substitution(s)", b.muts),
 			"readers": "random access; streaming over seekable and one-shot non-seekable sources; gH04c: an encoding with an unknown leading field (14 shapes) decoded from a stream whose first 4 reads are arbitrarily segmented (incl. one zero-length read)",
+			"boundary_lengths": "gH04v with every string/binary leaf 252, 253, 256 or 257 bytes long (pattern content, symbolic first and last byte)",
 			"value_shapes": "mutated encodings: concrete leaves, containers of 1 element, every nilable field present (thorough: also all absent); value direction: shapes as in C01",
 			"outside":      "programs outside the corpus"})
 	}
@@ -643,21 +688,25 @@ func checkC05() *CheckDef {
 	c.Prepare = genPrepare(1, 1)
 	c.Harnesses = func(tier string) []*sym.HarnessConfig {
 		var out []*sym.HarnessConfig
-		for step := 0; step <= 3; step++ {
+		for step := 0; step <= 4; step++ {
 			simple := 0
 			if step <= 1 && tier != "thorough" {
 				simple = 1 // base values: every nilable field absent, or every one present
 			}
-			out = append(out, genHarnesses(c, "gH05", map[string]int{"depth": 2, "step": step, "simple": simple, "ends": simple}, 20000000)...)
+			chunk := 0
+			if step == 0 {
+				chunk = 4
+			}
+			out = append(out, genHarnesses(c, "gH05", map[string]int{"depth": 2, "step": step, "simple": simple, "ends": simple, "chunk": chunk}, 20000000)...)
 		}
 		out = append(out, &sym.HarnessConfig{Name: "gHWitness", Pkg: c.Gen.MainPkg, Params: map[string]int{"type": 0, "depth": 1}, Budget: 20000000, ExpectViolation: true})
 		return out
 	}
 	c.Bounds = func(tier string) map[string]interface{} {
 		return genBounds(c, map[string]interface{}{
-			"evolution_steps": "one step on the top-level struct: unknown field (symbolic id, 14 well-formed shapes, every field boundary); declared field re-encoded with another wire type; declared field removed; fields reversed",
+			"evolution_steps": "one step on the top-level struct: unknown field (symbolic id, 14 well-formed shapes, field boundaries; also decoded from a stream whose first 4 reads are arbitrarily segmented); declared field re-encoded with another wire type; declared field removed; fields reversed; a container field re-encoded as the same kind of container with another element type (read as absent by both paths)",
 			"value_shapes":    "as C01 (quick tier, steps with foreign values: base values with all nilable fields absent or all present; unknown field inserted at the first or last boundary)",
-			"outside":         "steps inside nested structs/containers; two or more steps; container element-type mismatch (the statement is silent on it)",
+			"outside":         "steps inside nested structs/containers; two or more steps",
 		})
 	}
 	return c
